@@ -7,9 +7,9 @@
 From Coq Require Import ZArith NArith List Bool Lia String.
 From Verif Require Import Base.Bytes Modbus.Regs Modbus.Pdu Modbus.Conv Modbus.ConvProofs MiniGo.Syntax MiniGo.Slice MiniGo.SliceLemmas Anchors.Generated.
 Import ListNotations.
-Open Scope string_scope.
-Open Scope list_scope.
-Open Scope Z_scope.
+Local Open Scope string_scope.
+Local Open Scope list_scope.
+Local Open Scope Z_scope.
 
 Definition idxA : sexpr := XIndex "in" (XBin OMul (TS 64) (XVar "i") (XConst 2)).
 Definition idxB : sexpr := XIndex "in" (XBin OAdd (TS 64) (XBin OMul (TS 64) (XVar "i") (XConst 2)) (XConst 1)).
@@ -92,8 +92,6 @@ Fixpoint pairsZ (swap : bool) (l : list Z) : list Z :=
   | _ => []
   end.
 
-Definition iterOf (i : string) (body : list sstmt) : Z -> state -> sres :=
-  fun k st' => sexec_seq sexec body (set_int i (TS 64) k st').
 
 Lemma loopA swap cv cvs T c :
   (forall st e v, seval st e = Some v -> seval st (cv e) = Some (cvs v)) ->
@@ -325,11 +323,6 @@ Qed.
 
 Definition okB (Tin : ty) (cvs : Z -> Z) (x : Z) : Prop := wrap Tin x = x /\ 0 <= cvs x < 4294967296.
 
-Definition iterIV (i v : string) (t : ty) (l : list Z) (body : list sstmt) : Z -> state -> sres :=
-  fun k st' => match get_idx l k with
-               | Some x => sexec_seq sexec body (set_int v t x (set_int i (TS 64) k st'))
-               | None => None
-               end.
 
 Lemma loopB swap cv cvs Tin l :
   (forall st e v, seval st e = Some v -> seval st (cv e) = Some (cvs v)) ->
